@@ -55,6 +55,12 @@ Fixpoint dom (E : env) (d : desc) (w : pv) {struct d} : bool :=
   | DPrefixList vals => str_in vals w                                             (* a member (completed prefix) *)
   | DPrefixMap m => str_in (map fst m) w
   | DCompound ds | DUnion ds => existsb (fun a => dom E a w) ds
+  | DArray dt shape _ =>                                                          (* dtype and shape *)
+      match w with
+      | PArray k sh _ => match dt with Some t => k =? t | None => true end
+                         && match shape with Some spec => shape_ok spec sh | None => true end
+      | _ => false
+      end
   end.
 
 (* ---------- the documented conversion ---------- *)
@@ -105,6 +111,13 @@ Fixpoint conv_ok (E : env) (d : desc) (v w : pv) {struct d} : bool :=
       | _, _ => false
       end
   | DCompound ds | DUnion ds => existsb (fun a => conv_ok E a v w) ds
+  | DArray dt _ _ =>                          (* the array itself, or what numpy's asarray / astype made of it *)
+      match v with
+      | PArray k _ _ =>
+          if match dt with Some t => k =? t | None => true end then pv_eqb w v
+          else existsb (fun t => pv_eqb (snd t) w) (e_orc E)
+      | _ => existsb (fun t => pv_eqb (snd t) w) (e_orc E)
+      end
   end.
 
 (* ---------- exceptions of the value's own conversion protocol ---------- *)
@@ -145,7 +158,7 @@ Definition touched (kw : list (Z * pv)) (n : Z) : bool :=
   existsb (fun p => (fst p =? n) || (shadow (fst p) =? n)) kw.
 Definition is_ok (o : outcome) : bool := match o with Ok => true | _ => false end.
 
-(* clauses: 1 every readable entry lies in its declared domain (shadow = mapped value)
+(* clauses: 1 every entry written by the operation lies in its declared domain (shadow = mapped value)
             2 attributes that were not assigned are exactly as they were
             3 a failing assignment leaves every attribute as it was
             4 a successful assignment stores the documented conversion
@@ -154,7 +167,10 @@ Definition law_step (E : env) (c : cls) (before : inst) (o : op) (ob : obs) : li
   let '(h, kw) := o in
   let after := o_after ob in
   let base := match h, o_out ob with Ctor, Ok => [] | _, _ => before end in
-  chk 1 (forallb (entry_ok E after) c)
+  chk 1 (forallb (fun nd => (* entries this operation did not write were judged when they were written *)
+                     (opt_eqb pv_eqb (get base (fst nd)) (get after (fst nd))
+                      && opt_eqb pv_eqb (get base (shadow (fst nd))) (get after (shadow (fst nd))))
+                     || entry_ok E after nd) c)
   ++ chk 2 (same_on (filter (fun n => negb (touched kw n)) (names_of c)) base after)
   ++ chk 3 (match o_out ob, h, kw with
             | Ok, _, _ => true
